@@ -116,34 +116,37 @@ def hNextStep (P : HParams α n) (hnew h : α) (reject : Bool) : α :=
   let hnew := if Num.abs hnew > Num.abs P.hmax then P.posneg * Num.abs P.hmax else hnew
   if reject then P.posneg * Num.fmin (Num.abs hnew) (Num.abs h) else hnew
 
+/-- second half of "Step accepted": dense output, state update, callback, exit test, limits on the next step -/
+def hFinish {σ : Type} (P : HParams α n) (Kn : HKernel α n) (f : Rhs α n) (ob : Obs σ α n) (s : HState σ α n)
+    (h : α) (last : Bool) (hnew facold hlamb : α) (nonstiff iasti : Nat) (sa : Kn.SA) (m : Meter α n) :
+    Sum (HState σ α n) (Result σ α n) :=
+  let b := Kn.acceptB (fun j => f (m.ncalls + j)) P.dense sa s.x h s.y s.k1
+  let ip : Option (α → Vec α n) := if P.dense then some (Kn.interp b.2.2.1 s.x h) else none
+  let m := (m.bump b.2.2.2.1 b.2.2.2.2).cb s.x (s.x + h) b.1 (sampleInterp ip s.x (s.x + h) P.quarter P.half P.threeq)
+  match afterCb f ob s.obs m s.x (s.x + h) b.1 ip b.2.1 with
+  | .stop obs y => .inr { status := .userInterrupt, h := h, x := s.x + h, y := y, m := m, obs := obs }
+  | .go obs y k1 m =>
+    if last then .inr { status := .success, h := hnew, x := s.x + h, y := y, m := m, obs := obs }
+    else
+      .inl { x := s.x + h, h := hNextStep P hnew h s.reject, y := y, k1 := k1, facold := facold, last := last, reject := false,
+             nonstiff := nonstiff, iasti := iasti, hlamb := hlamb, m := m, obs := obs }
+
+/-- stiffness test of an accepted step: new `hlamb` and `(nonstiff, iasti, stop)` -/
+def hStiffTest {σ : Type} (P : HParams α n) (Kn : HKernel α n) (s : HState σ α n) (h : α) (sa : Kn.SA) (accepted : Nat) :
+    α × Nat × Nat × Bool :=
+  if decide (accepted % P.nstiff = 0) || decide (s.iasti > 0) then
+    let hlamb := Kn.hlamb sa h s.y s.k1 s.hlamb
+    (hlamb, hStiff hlamb P.stiffLimit s.nonstiff s.iasti)
+  else (s.hlamb, s.nonstiff, s.iasti, false)
+
 /-- "Step accepted" -/
 def hAccepted {σ : Type} (P : HParams α n) (Kn : HKernel α n) (f : Rhs α n) (ob : Obs σ α n) (s : HState σ α n)
     (h : α) (last : Bool) (T : HTrial α n Kn.S) : Sum (HState σ α n) (Result σ α n) :=
-  let facold := P.facoldNew T.err
-  let m := T.m.incAccepted
-  let a := Kn.acceptA (fun j => f (m.ncalls + j)) T.S s.x h s.y s.k1
-  let m := m.bump a.2.1 a.2.2
-  -- Stiffness detection
-  let doStiff := decide (m.cnt.accepted % P.nstiff = 0) || decide (s.iasti > 0)
-  let hlamb := if doStiff then Kn.hlamb a.1 h s.y s.k1 s.hlamb else s.hlamb
-  let st := if doStiff then hStiff hlamb P.stiffLimit s.nonstiff s.iasti else (s.nonstiff, s.iasti, false)
-  if st.2.2 then
-    .inr { status := .probablyStiff, h := h, x := s.x, y := s.y, m := m, obs := s.obs }
-  else
-    -- dense output, state update
-    let b := Kn.acceptB (fun j => f (m.ncalls + j)) P.dense a.1 s.x h s.y s.k1
-    let m := m.bump b.2.2.2.1 b.2.2.2.2
-    let xold := s.x
-    let x := s.x + h
-    let ip : Option (α → Vec α n) := if P.dense then some (Kn.interp b.2.2.1 xold h) else none
-    let m := m.cb xold x b.1 (sampleInterp ip xold x P.quarter P.half P.threeq)
-    match afterCb f ob s.obs m xold x b.1 ip b.2.1 with
-    | .stop obs y => .inr { status := .userInterrupt, h := h, x := x, y := y, m := m, obs := obs }
-    | .go obs y k1 m =>
-      if last then .inr { status := .success, h := T.hnew, x := x, y := y, m := m, obs := obs }
-      else
-        .inl { x := x, h := hNextStep P T.hnew h s.reject, y := y, k1 := k1, facold := facold, last := last, reject := false,
-               nonstiff := st.1, iasti := st.2.1, hlamb := hlamb, m := m, obs := obs }
+  let a := Kn.acceptA (fun j => f (T.m.incAccepted.ncalls + j)) T.S s.x h s.y s.k1
+  let m := T.m.incAccepted.bump a.2.1 a.2.2
+  let st := hStiffTest P Kn s h a.1 m.cnt.accepted
+  if st.2.2.2 then .inr { status := .probablyStiff, h := h, x := s.x, y := s.y, m := m, obs := s.obs }
+  else hFinish P Kn f ob s h last T.hnew (P.facoldNew T.err) st.1 st.2.1 st.2.2.1 a.1 m
 
 /-- one pass of `loop { … }` -/
 def hIter {σ : Type} (P : HParams α n) (Kn : HKernel α n) (f : Rhs α n) (ob : Obs σ α n) (s : HState σ α n) :
